@@ -431,13 +431,48 @@ func canonEvent(ev *aucoalesce.Event, err error) string {
 }
 
 func canonMsg(m *auparse.AuditMessage) string {
+	// a hand-rolled canonical form (sorted keys): this runs for every message
+	// of every touched group after every operation
+	var b strings.Builder
 	d, derr := m.Data()
 	tags, terr := m.Tags()
 	ms := m.ToMapStr()
-	db, _ := json.Marshal(d)
-	tb, _ := json.Marshal(tags)
-	mb, _ := json.Marshal(ms)
-	return fmt.Sprintf("data=%s derr=%v tags=%s terr=%v map=%s", db, derr, tb, terr, mb)
+	b.WriteString("data{")
+	keys := make([]string, 0, len(d)+len(ms))
+	for k := range d {
+		keys = append(keys, k)
+	}
+	sort.Strings(keys)
+	for _, k := range keys {
+		b.WriteString(k)
+		b.WriteByte('=')
+		b.WriteString(d[k])
+		b.WriteByte(0x1f)
+	}
+	if d == nil {
+		b.WriteString("nil")
+	}
+	fmt.Fprintf(&b, "} derr=%v tags=%q/%v terr=%v map{", derr, tags, tags == nil, terr)
+	keys = keys[:0]
+	for k := range ms {
+		keys = append(keys, k)
+	}
+	sort.Strings(keys)
+	for _, k := range keys {
+		b.WriteString(k)
+		b.WriteByte('=')
+		switch v := ms[k].(type) {
+		case string:
+			b.WriteString(v)
+		case []string:
+			fmt.Fprintf(&b, "%q", v)
+		default:
+			fmt.Fprintf(&b, "%T:%v", v, v)
+		}
+		b.WriteByte(0x1f)
+	}
+	b.WriteByte('}')
+	return b.String()
 }
 
 type qGroup struct {
